@@ -937,7 +937,9 @@ def reset_case():
     TR.set_fuzz(0.0)
     release_all_waiters()
     with MU:
-        del TRACKED[:]
+        # threads that survive their case (e.g. the library's process-wide helper
+        # executor behind f_timeout) stay known to the quiescence detector
+        TRACKED[:] = [t for t in TRACKED if t.vf_started and t.is_alive() and not t.vf_finished]
         del ACTORS[:]
         del THREAD_ERRORS[:]
         LM.waiting.clear()
